@@ -1651,10 +1651,7 @@ Proof.
     + unfold assign_hash. rewrite Hh. eexists. split; [reflexivity|]. split; [reflexivity|exact Hspec].
     + eexists. split; [reflexivity|]. split; [reflexivity|exact Hspec].
 Qed.
-(* NOT PROVED (resolution_refines_spec): that resolve_rules yields exactly spec_at / spec_hash_fresh on uniform groups.
-   What is proved about them: assign_at_injective_bounded, assign_hash_round_robin (the plans, as functional
-   specifications on lists), resolve_rules_total, resolve_no_sign_unchanged. The equality with spec_resolve is
-   checked on every generated case by spec_violations (model = implementation = spec on the same inputs). *)
+(* the uniform '@' and '#' cases follow: resolve_at_refines_spec, resolve_hash_refines_spec, resolution_refines_spec *)
 
 (* ================================================================ resolution vs spec_resolve : '@' *)
 Lemma nth_error_ext_eq : forall {A} (l1 l2 : list A), (forall j, nth_error l1 j = nth_error l2 j) -> l1 = l2.
@@ -1670,8 +1667,8 @@ Lemma nth_error_set_nth : forall {A} (l : list A) k v j,
   nth_error (set_nth k v l) j = if Nat.eqb j k then option_map (fun _ => v) (nth_error l j) else nth_error l j.
 Proof.
   intros A l. induction l as [|a l IH]; intros k v j; simpl.
-  - destruct (Nat.eqb j k); destruct j; reflexivity.
-  - destruct k as [|k]; destruct j as [|j]; simpl; auto. apply IH.
+  - destruct k; destruct j; simpl; try reflexivity; destruct (Nat.eqb j k); reflexivity.
+  - destruct k as [|k]; destruct j as [|j]; simpl; auto.
 Qed.
 
 Lemma nth_error_enumerate_from : forall {A} (l : list A) s j,
@@ -1719,19 +1716,210 @@ Proof.
   destruct l2 as [|b l2]; simpl; [reflexivity|]. destruct (Nat.eqb (key a) j); [reflexivity|apply IH].
 Qed.
 
+Lemma at_plan_eq : forall ev g L, gr_at g = Some L ->
+  at_plan ev g =
+  combine (filter (fun kp => negb (is_nil (i_at (g_idt (snd kp))))) (sorted_procs (gr_procs g)))
+          (filter (fun i => negb (zmem i (assigned_identifiers (sorted_procs (gr_procs g))))) (ref_identifiers ev L)).
+Proof.
+  intros ev g L H. unfold at_plan. rewrite H.
+  destruct (filter (fun kp => negb (is_nil (i_at (g_idt (snd kp))))) (sorted_procs (gr_procs g))); reflexivity.
+Qed.
+
+Lemma uniform_at_hash_nil : forall ps L p, uniform_at ps = Some L -> In p ps -> i_hash (g_idt p) = [].
+Proof.
+  intros ps L p H Hin. unfold uniform_at in H. destruct (find _ ps); [|discriminate].
+  destruct (forallb _ ps) eqn:E; [|discriminate]. rewrite forallb_forall in E. specialize (E p Hin).
+  unfold tobs_of, obs_idt in E. destruct (i_ids (g_idt p)) as [|x [|y l]]; destruct (i_at (g_idt p));
+    destruct (i_hash (g_idt p)); try discriminate; reflexivity.
+Qed.
+
 (* '@' : on a uniform group the observable after resolve_rules is exactly spec_at *)
 Theorem resolve_at_refines_spec : forall ev g L,
+  NoDup (instances ev) ->
   gr_at g = Some L -> L <> [] -> truthy (gr_hash g) = false ->
   uniform_at (gr_procs g) = Some L ->
   exists g', resolve_rules ev g = Ok g' /\ group_obs g' = spec_at ev L (gr_procs g).
 Proof.
-  intros ev g L Hat HL Hh Hu. unfold resolve_rules. rewrite Hat.
+  intros ev g L Hinst Hat HL Hh Hu. unfold resolve_rules. rewrite Hat.
   assert (Ht : truthy (Some L) = true) by (destruct L; [congruence|reflexivity]). rewrite Ht.
   assert (Hgh : gr_hash (assign_at ev g) = gr_hash g) by reflexivity. rewrite Hgh, Hh.
   eexists. split; [reflexivity|].
-  unfold group_obs, assign_at. cbn [gr_procs]. fold at_step.
-  apply nth_error_ext_eq. intros j. rewrite nth_error_map.
   assert (Hnd : NoDup (map (fun kpi : nat * gproc * Z => fst (fst kpi)) (at_plan ev g))).
-  { destruct (assign_at_injective_bounded ev g L) as (_ & _ & H & _); auto.
-    (* instances need not be duplicate-free for this part *)
-    Abort.
+  { destruct (assign_at_injective_bounded ev g L Hinst Hat) as (_ & _ & H & _). exact H. }
+  assert (Hplan_in : forall kpi, In kpi (at_plan ev g) -> i_hash (g_idt (snd (fst kpi))) = []).
+  { intros kpi Hin. destruct (assign_at_injective_bounded ev g L Hinst Hat) as (_ & _ & _ & H & _).
+    destruct (H (fst kpi)) as (Hs & _); [apply in_map; exact Hin|].
+    apply in_sorted_procs in Hs. eapply uniform_at_hash_nil; eauto. }
+  unfold group_obs, assign_at. cbn [gr_procs]. fold at_step.
+  apply nth_error_ext_eq. intros j. rewrite nth_error_map, (fold_at_step_nth _ _ j Hnd).
+  unfold spec_at. rewrite nth_error_map, nth_error_enumerate.
+  destruct (nth_error (gr_procs g) j) as [p|] eqn:Ep; cbn [option_map fst snd].
+  2:{ destruct (find _ (at_plan ev g)); reflexivity. }
+  rewrite (find_combine_key fst). rewrite <- (at_plan_eq ev g L Hat).
+  destruct (find (fun kpi : nat * gproc * Z => Nat.eqb (fst (fst kpi)) j) (at_plan ev g)) as [kpi|] eqn:Ef;
+    cbn [option_map fst snd].
+  - apply find_some in Ef. destruct Ef as (Hin & _). rewrite (Hplan_in kpi Hin). reflexivity.
+  - reflexivity.
+Qed.
+
+(* ================================================================ resolution vs spec_resolve : '#' *)
+Lemma fold_hash_step_nth : forall ref plan ps j,
+  NoDup (map (fun kpp : nat * gproc * nat => fst (fst kpp)) plan) ->
+  nth_error (apply_hash ref ps plan) j =
+  match find (fun kpp : nat * gproc * nat => Nat.eqb (fst (fst kpp)) j) plan with
+  | Some kpp => option_map (fun _ => mkG (g_index (snd (fst kpp)))
+                                         (mkI [nth (snd kpp) ref 0] (i_at (g_idt (snd (fst kpp)))) []))
+                           (nth_error ps j)
+  | None => nth_error ps j
+  end.
+Proof.
+  intros ref plan. unfold apply_hash. induction plan as [|[[k p] pos] plan IH]; intros ps j Hnd; simpl; [reflexivity|].
+  inversion Hnd as [|x l Hx Hl]; subst. rewrite (IH _ j Hl). rewrite nth_error_set_nth.
+  rewrite (Nat.eqb_sym k j). destruct (Nat.eqb j k) eqn:E.
+  - apply Nat.eqb_eq in E. subst j.
+    assert (Hf : find (fun kpp : nat * gproc * nat => Nat.eqb (fst (fst kpp)) k) plan = None).
+    { destruct (find _ plan) as [y|] eqn:Ef; auto. apply find_some in Ef. destruct Ef as (Hin & Hk).
+      apply Nat.eqb_eq in Hk. exfalso. apply Hx. simpl. rewrite <- Hk. apply in_map_iff. exists y. auto. }
+    rewrite Hf. reflexivity.
+  - destruct (find _ plan); reflexivity.
+Qed.
+
+Lemma find_rank : forall (l : list (nat * gproc)) (f : nat -> nat) s j,
+  option_map snd (find (fun x : nat * gproc * nat => Nat.eqb (fst (fst x)) j) (combine l (map f (seq s (length l)))))
+  = match find_idx_from (Nat.eqb j) s (map fst l) with i :: _ => Some (f i) | [] => None end.
+Proof.
+  induction l as [|[k p] l IH]; intros f s j; simpl; [reflexivity|].
+  rewrite (Nat.eqb_sym j k). destruct (Nat.eqb k j); simpl; [reflexivity|]. apply IH.
+Qed.
+
+Lemma filter_all : forall {A} (f : A -> bool) l, (forall x, In x l -> f x = true) -> filter f l = l.
+Proof.
+  intros A f l. induction l as [|a l IH]; intros H; simpl; auto.
+  rewrite (H a (or_introl eq_refl)). f_equal. apply IH. intros x Hx. apply H. right; exact Hx.
+Qed.
+
+Lemma zl_eqb_sound : forall a b, zl_eqb a b = true -> a = b.
+Proof.
+  unfold zl_eqb. induction a as [|x a IH]; intros [|y b] H; simpl in H; try discriminate; auto.
+  apply andb_prop in H. destruct H as (H1 & H2). apply Z.eqb_eq in H1. subst. f_equal. auto.
+Qed.
+
+Lemma uniform_hash_shape : forall ps L p, uniform_hash ps = Some L -> fresh ps = true -> In p ps ->
+  i_ids (g_idt p) = [] /\ i_at (g_idt p) = [] /\ i_hash (g_idt p) = L /\ L <> [].
+Proof.
+  intros ps L p H Hf Hin. unfold uniform_hash in H. destruct (find _ ps) as [p0|] eqn:E0; [|discriminate].
+  destruct (forallb _ ps) eqn:E; [|discriminate]. inversion H; subst. clear H.
+  apply find_some in E0. destruct E0 as (_ & Hp0).
+  rewrite forallb_forall in E. specialize (E p Hin).
+  unfold fresh in Hf. rewrite forallb_forall in Hf. specialize (Hf p Hin).
+  unfold tobs_of, obs_idt in E.
+  destruct (i_ids (g_idt p)) as [|x l]; [|discriminate].
+  destruct (i_at (g_idt p)); [|discriminate].
+  repeat split; auto.
+  - apply zl_eqb_sound. exact E.
+  - intros Hn. rewrite Hn in Hp0. discriminate.
+Qed.
+
+(* '#' : on a fresh uniform group the observable after resolve_rules is exactly spec_hash_fresh (round-robin) *)
+Theorem resolve_hash_refines_spec : forall ev g L,
+  NoDup (instances ev) ->
+  gr_hash g = Some L -> truthy (gr_at g) = false ->
+  uniform_hash (gr_procs g) = Some L -> fresh (gr_procs g) = true ->
+  ref_identifiers ev L <> [] ->
+  exists g', resolve_rules ev g = Ok g'
+             /\ group_obs g' = spec_hash_fresh (ref_identifiers ev L) (gr_procs g).
+Proof.
+  intros ev g L Hinst Hh Hat Hu Hf Href. unfold resolve_rules. rewrite Hat.
+  set (ps := gr_procs g) in *. set (ref := ref_identifiers ev L) in *.
+  assert (Hshape : forall p, In p ps -> i_ids (g_idt p) = [] /\ i_at (g_idt p) = [] /\ i_hash (g_idt p) = L /\ L <> [])
+    by (intros p Hp; eapply uniform_hash_shape; eauto).
+  assert (HL : L <> []).
+  { unfold uniform_hash in Hu. destruct (find _ ps) as [p0|] eqn:E0; [|discriminate].
+    apply find_some in E0. destruct E0 as (Hin & _). destruct (Hshape p0 Hin) as (_ & _ & _ & H). exact H. }
+  assert (Ht : truthy (gr_hash g) = true) by (rewrite Hh; destruct L; [congruence|reflexivity]). rewrite Ht.
+  assert (Hwait : filter (fun kp => negb (is_nil (i_hash (g_idt (snd kp))))) (sorted_procs ps) = sorted_procs ps).
+  { apply filter_all. intros kp Hkp. apply in_sorted_procs in Hkp. destruct (Hshape _ Hkp) as (_ & _ & Hhp & _).
+    rewrite Hhp. destruct L; [congruence|reflexivity]. }
+  destruct (assign_hash_round_robin ev g L Hinst Hh) as [Hrr|(Hnil & _)]; auto.
+  { intros p Hp. destruct (Hshape p Hp) as (H & _). exact H. }
+  2:{ (* nobody waiting: impossible, the group is not empty *)
+      exfalso. fold ps in Hnil. rewrite Hwait in Hnil.
+      unfold uniform_hash in Hu. destruct (find _ ps) as [p0|] eqn:E0; [|discriminate].
+      apply find_some in E0. destruct E0 as (Hin & _).
+      assert (Hperm : Permutation (sorted_procs ps) (enumerate ps)) by apply sorted_procs_perm.
+      rewrite Hnil in Hperm. apply Permutation_nil in Hperm. unfold enumerate in Hperm.
+      destruct ps; [destruct Hin|discriminate]. }
+  rewrite Hrr. fold ps. fold ref. rewrite Hwait. eexists. split; [reflexivity|].
+  unfold group_obs. cbn [gr_procs].
+  set (order := sorted_procs ps).
+  set (plan := combine order (map (fun k => (k mod length ref)%nat) (seq 0 (length order)))).
+  assert (Hnd : NoDup (map (fun kpp : nat * gproc * nat => fst (fst kpp)) plan)).
+  { unfold plan. apply (NoDup_map_fst_combine fst). apply sorted_procs_positions_NoDup. }
+  apply nth_error_ext_eq. intros j. rewrite nth_error_map, (fold_hash_step_nth ref plan ps j Hnd).
+  unfold spec_hash_fresh. rewrite nth_error_map, nth_error_enumerate. fold order.
+  destruct (nth_error ps j) as [p|] eqn:Ep; cbn [option_map fst snd].
+  2:{ destruct (find _ plan); reflexivity. }
+  pose proof (find_rank order (fun k => (k mod length ref)%nat) 0 j) as Hrank. fold plan in Hrank.
+  unfold find_idx. destruct (find_idx_from (Nat.eqb j) 0 (map fst order)) as [|rank rest] eqn:Er.
+  - destruct (find _ plan) as [kpp|]; [discriminate|]. reflexivity.
+  - destruct (find (fun kpp : nat * gproc * nat => Nat.eqb (fst (fst kpp)) j) plan) as [kpp|] eqn:Efp; [|discriminate].
+    simpl in Hrank. inversion Hrank as [Hpos]. cbn [option_map].
+    apply find_some in Efp. destruct Efp as (Hin & _).
+    assert (Hinp : In (snd (fst kpp)) ps).
+    { unfold plan in Hin. destruct kpp as [[k p'] pos]. apply in_combine_l in Hin. apply in_sorted_procs in Hin. exact Hin. }
+    destruct (Hshape _ Hinp) as (_ & Hatp & _ & _). rewrite Hatp. unfold obs_idt. cbn [g_idt i_ids i_at i_hash].
+    rewrite Hpos. rewrite <- Nat2Z.inj_mod, Nat2Z.id. reflexivity.
+Qed.
+
+(* ================================================================ resolution_refines_spec *)
+(* the lists held by the group are those of its waiting processes (what add_process maintains on uniform groups) *)
+Definition group_consistent (g : group) : Prop :=
+  (forall L, uniform_at (gr_procs g) = Some L -> gr_at g = Some L /\ truthy (gr_hash g) = false)
+  /\ (forall L, uniform_hash (gr_procs g) = Some L -> gr_hash g = Some L /\ truthy (gr_at g) = false).
+
+Lemma uniform_at_nonempty : forall ps L, uniform_at ps = Some L -> L <> [].
+Proof.
+  intros ps L H. unfold uniform_at in H. destruct (find _ ps) as [p0|] eqn:E0; [|discriminate].
+  destruct (forallb _ ps); [|discriminate]. inversion H; subst. apply find_some in E0. destruct E0 as (_ & E0).
+  intros Hn. rewrite Hn in E0. discriminate.
+Qed.
+
+(* MAIN (resolution): whenever the specification gives the expected observation of a resolve_rules, and outside
+   the class of finding `hash-empty-ref`, resolve_rules returns it *)
+Theorem resolution_refines_spec : forall ev g ts,
+  NoDup (instances ev) -> group_consistent g ->
+  spec_resolve ev (gr_procs g) = Some ts ->
+  class_hash_empty_ref ev g = false ->
+  exists g', resolve_rules ev g = Ok g' /\ group_obs g' = ts.
+Proof.
+  intros ev g ts Hinst (Hca & Hch) Hs Hk. unfold spec_resolve in Hs.
+  destruct (no_sign (gr_procs g)) eqn:Ens.
+  - inversion Hs; subst. destruct (resolve_no_sign_unchanged ev g Ens) as (g' & H1 & H2 & _). exists g'. auto.
+  - destruct (uniform_at (gr_procs g)) as [La|] eqn:Eua; destruct (uniform_hash (gr_procs g)) as [Lh|] eqn:Euh;
+      try discriminate.
+    + inversion Hs; subst. destruct (Hca La eq_refl) as (Hat & Hh).
+      apply (resolve_at_refines_spec ev g La Hinst Hat (uniform_at_nonempty _ _ Eua) Hh Eua).
+    + destruct (Hch Lh eq_refl) as (Hh & Hat).
+      destruct (is_nil (ref_identifiers ev Lh)) eqn:Eref.
+      * (* no known name in the list: the class of the finding, excluded *)
+        exfalso. unfold class_hash_empty_ref in Hk. rewrite Hh in Hk.
+        unfold uniform_hash in Euh. destruct (find _ (gr_procs g)) as [p0|] eqn:E0; [|discriminate].
+        destruct (forallb _ (gr_procs g)); [|discriminate]. inversion Euh; subst.
+        apply find_some in E0. destruct E0 as (Hin & Hp0).
+        destruct (i_hash (g_idt p0)) as [|h hl] eqn:Eh; [discriminate|].
+        rewrite Eref in Hk. simpl in Hk.
+        assert (existsb (fun p => negb (is_nil (i_hash (g_idt p)))) (gr_procs g) = true).
+        { apply existsb_exists. exists p0. split; auto. rewrite Eh. reflexivity. }
+        congruence.
+      * destruct (fresh (gr_procs g)) eqn:Ef; [|discriminate]. inversion Hs; subst.
+        apply (resolve_hash_refines_spec ev g Lh Hinst Hh Hat Euh Ef).
+        intros Hn. rewrite Hn in Eref. discriminate.
+Qed.
+
+Example resolution_refines_spec_example :
+  let w := mkI [] [] [104; 102] in
+  let g := fold_left add_process [mkG 1 w; mkG 2 w; mkG 3 w] group_init in
+  uniform_hash (gr_procs g) = Some [104; 102] /\ uniform_at (gr_procs g) = None
+  /\ gr_hash g = Some [104; 102] /\ truthy (gr_at g) = false
+  /\ spec_resolve (mkEnv [101; 102; 103; 104] [] []) (gr_procs g) = Some [([104], [], []); ([102], [], []); ([104], [], [])].
+Proof. vm_compute. repeat split. Qed.
